@@ -74,12 +74,27 @@ pub fn gen_fft_case(ctx: &mut Ctx, max_log: usize) -> FftCase {
     FftCase { inverse, count, len64, pos, size, trunc, delta, data }
 }
 
+thread_local! {
+    /// descriptions of transform calls that panicked inside the crate (reported by the callers' checks)
+    pub static PANICS: std::cell::RefCell<Vec<String>> = const { std::cell::RefCell::new(Vec::new()) };
+}
+
+/// runs one transform; a panic inside the crate is recorded and the input is returned unchanged with
+/// its first byte flipped (so that every comparison that follows fails and names the case)
 pub fn run_fft(e: &dyn Prims, c: &FftCase) -> Vec<[u8; 64]> {
     let mut d = c.data.clone();
-    if c.inverse {
-        e.ifft(&mut d, c.count, c.len64, c.pos, c.size, c.trunc, c.delta);
-    } else {
-        e.fft(&mut d, c.count, c.len64, c.pos, c.size, c.trunc, c.delta);
+    let r = std::panic::catch_unwind(std::panic::AssertUnwindSafe(|| {
+        if c.inverse {
+            e.ifft(&mut d, c.count, c.len64, c.pos, c.size, c.trunc, c.delta);
+        } else {
+            e.fft(&mut d, c.count, c.len64, c.pos, c.size, c.trunc, c.delta);
+        }
+    }));
+    if r.is_err() {
+        PANICS.with(|p| p.borrow_mut().push(describe(c)));
+        let mut x = c.data.clone();
+        if let Some(b) = x.get_mut(c.pos * c.len64) { b[0] ^= 0xff; }
+        return x;
     }
     d
 }
@@ -200,6 +215,11 @@ pub fn run(ctx: &mut Ctx) {
             ctx.notes.push(format!("garbage-region symbols (not judged): {} of {} equal between model schedule and implementation", garbage_equal, garbage_total));
         }
         Err(e) => { let c = Case::new("prim-model"); ctx.model_fail(e, &c, None); }
+    }
+    let panics: Vec<String> = PANICS.with(|p| p.borrow_mut().drain(..).collect());
+    for d in panics.iter().take(20) {
+        let case = Case { name: format!("prim-panic: {}", d), lines: vec![], with_model: false };
+        ctx.oracle_fail(format!("a transform primitive panicked inside the crate on a contract-valid call: {}", d), &case, None);
     }
     block_ties(ctx, &prims);
     // end to end with mixed engines: reuse the C01 generator at a smaller scale
